@@ -90,11 +90,15 @@ Proof. vm_compute. reflexivity. Qed.
 Definition ex_pubs : list bop :=
   [BPublish 100 ex_lookup 5 ex_pub 1 [] "hist.topic" [vnat 1] [];
    BSubscribe 101 14 1 [] "hist.topic";
-   BPublish 103 ex_lookup 6 ex_pub 2 [("exclude", VList [vid 99])] "hist.topic" [vnat 2] [];
-   BPublish 104 ex_lookup 7 ex_pub 3 [] "hist.topic" [vnat 3] [];
-   BRemove 105 14;
-   BUnsubscribe 105 13 9 1;
-   BPublish 107 ex_lookup 8 ex_pub 4 [] "hist.topic" [vnat 4] []].
+   BPublish 102 ex_lookup 6 ex_pub 2 [("exclude", VList [vid 99])] "hist.topic" [vnat 2] [];
+   BPublish 103 ex_lookup 7 ex_pub 3 [] "hist.topic" [vnat 3] [];
+   BRemove 104 14;
+   BUnsubscribe 104 13 9 1;
+   BPublish 105 ex_lookup 8 ex_pub 4 [] "hist.topic" [vnat 4] []].
+
+(** the id supply of the example is the threaded counter *)
+Lemma ex_threaded : threaded ex_cfg ex_b 100 ex_pubs.
+Proof. vm_compute. repeat split. Qed.
 
 Lemma ex_hist_sub : sub_sig ex_b 1 "hist.topic" MExact.
 Proof. eexists. vm_compute. repeat split. Qed.
@@ -110,11 +114,11 @@ Proof. split; vm_compute; discriminate. Qed.
 
 (** three stored, one restricted, limit 2: the ring wrapped and all
     subscribers left in between *)
-Lemma ex_hist_ref : map h_pub (hist_ref ex_cfg 1 "hist.topic" MExact ex_pubs) = [101; 105; 108].
+Lemma ex_hist_ref : map h_pub (hist_ref ex_cfg 1 "hist.topic" MExact ex_pubs) = [101; 104; 106].
 Proof. vm_compute. reflexivity. Qed.
 
 Lemma ex_hist_result :
-  option_map (fun st => map h_pub (hs_entries st)) (nget (b_hist (brun ex_cfg ex_b ex_pubs)) 1) = Some [105; 108].
+  option_map (fun st => map h_pub (hs_entries st)) (nget (b_hist (brun ex_cfg ex_b ex_pubs)) 1) = Some [104; 106].
 Proof. vm_compute. reflexivity. Qed.
 
 Lemma ex_hist_no_subscribers :
@@ -125,6 +129,9 @@ Proof. vm_compute. reflexivity. Qed.
 Definition ex_e (p t : N) : hentry := mkHEntry 1 p [] [vnat p] [] t.
 Definition ex_entries : list hentry := [ex_e 101 10; ex_e 105 20; ex_e 108 30; ex_e 110 40].
 Definition ex_q0 : hquery := mkHQ None false None None None None "" None None None None.
+
+Lemma ex_configured : In (mkHistCfg "hist" "prefix" 3) (c_hist ex_cfg) /\ Forall (fun c => 1 <= hc_limit c) (c_hist ex_cfg).
+Proof. split; [right; now left|]. repeat constructor; vm_compute; discriminate. Qed.
 
 Lemma ex_no_pub_bounds : no_pub_bounds ex_q0.
 Proof. repeat split. Qed.
